@@ -1,7 +1,7 @@
 (* C07 - property theorems (statements only; the proofs live in Acme.C01.ProofsXxx / Acme.C07.ProofsXxx). *)
 From Coq Require Import ZArith List.
-From Acme.C01 Require Import Layout State Model ProofsLayout ProofsInv Refuted ProofsT1 Examples.
-From Acme.C07 Require Import Model Proofs ProofsReg.
+From Acme.C01 Require Import Layout State Model ProofsLayout ProofsInv ProofsSpec ProofsAccept Refuted ProofsT1 Examples.
+From Acme.C07 Require Import Model Proofs ProofsReg ProofsFinal.
 Import ListNotations.
 Open Scope Z_scope.
 
@@ -86,6 +86,38 @@ Theorem message_view : forall ops, ok_hist_f ops -> forall m x,
   /\ (pmsg (run ops) x = Some m <-> in_tree (run ops) m x).
 Proof. exact message_view_reachable. Qed.
 Print Assumptions message_view.
+
+(* size changes inside a multiplexer: accepted exactly when EVERY group holding the signal has that many
+   free bits behind it (change_fits quantifies over all layouts holding x) *)
+Theorem set_type_in_mux_accepted_iff_fits : forall s x old n, InvA s -> InvM s -> InvR s ->
+  kind s x = KStd old -> 1 <= n -> single_moved s (rel s) x (n - old) ->
+  (is_ok (snd (step_set_type s x n)) <->
+   n - old <= 0 \/ forall L, In x (lay s L) -> n - old <= free_in s (rel s) L x).
+Proof. exact set_type_accepted_iff_f. Qed.
+Print Assumptions set_type_in_mux_accepted_iff_fits.
+
+(* ShiftSignalLeft / ShiftSignalRight of a multiplexer: only a signal held by exactly one group moves;
+   the returned distance is the distance moved, the target is the declarative clamp in that group, no
+   other signal moves *)
+Theorem mux_shift_left_spec : forall s u x a, InvA s -> InvM s ->
+  exists d, snd (step_mux_shift true s u x a) = RShift d
+    /\ d = rel s x - rel (fst (step_mux_shift true s u x a)) x
+    /\ (forall y, y <> x -> rel (fst (step_mux_shift true s u x a)) y = rel s y)
+    /\ (forall g, mux_moves s u x a g ->
+          rel (fst (step_mux_shift true s u x a)) x = left_target s (gget s u (Z.to_nat g)) x a /\ 0 <= d <= a)
+    /\ ((forall g, ~ mux_moves s u x a g) -> d = 0).
+Proof. exact mux_shift_left_spec_f. Qed.
+Print Assumptions mux_shift_left_spec.
+
+Theorem mux_shift_right_spec : forall s u x a, InvA s -> InvM s ->
+  exists d, snd (step_mux_shift false s u x a) = RShift d
+    /\ d = rel (fst (step_mux_shift false s u x a)) x - rel s x
+    /\ (forall y, y <> x -> rel (fst (step_mux_shift false s u x a)) y = rel s y)
+    /\ (forall g, mux_moves s u x a g ->
+          rel (fst (step_mux_shift false s u x a)) x = right_target s (mux_gsize s u) (gget s u (Z.to_nat g)) x a /\ 0 <= d <= a)
+    /\ ((forall g, ~ mux_moves s u x a g) -> d = 0).
+Proof. exact mux_shift_right_spec_f. Qed.
+Print Assumptions mux_shift_right_spec.
 
 (* Non-vacuity: a multiplexer attached to a message with a nested multiplexer, fixed / two-group /
    repeated insertion, SetType (shrink and grow) inside the nested multiplexer, shift, clear-group,
